@@ -9,20 +9,30 @@ mod oracle;
 mod c01;
 mod c02;
 mod c11_13;
+#[cfg(feature = "net")]
 mod c03;
+#[cfg(feature = "net")]
 mod c04;
+#[cfg(feature = "net")]
 mod c05;
+#[cfg(feature = "net")]
 mod c06;
 mod c07;
 mod c08;
+#[cfg(feature = "net")]
 mod c09;
+#[cfg(feature = "net")]
 mod c10;
 mod c12;
 mod c14;
+#[cfg(feature = "net")]
 mod c15;
+#[cfg(feature = "net")]
 mod c16;
+#[cfg(feature = "net")]
 mod c17;
 mod c18;
+#[cfg(feature = "net")]
 mod c19;
 
 use common::*;
@@ -38,20 +48,30 @@ fn main() {
         }
         "c01" => c01::run(&args),
         "c02" => c02::run(&args),
+        #[cfg(feature = "net")]
         "c03" => c03::run(&args),
+        #[cfg(feature = "net")]
         "c04" => c04::run(&args),
+        #[cfg(feature = "net")]
         "c05" => c05::run(&args),
+        #[cfg(feature = "net")]
         "c06" => c06::run(&args),
         "c07" => c07::run(&args),
         "c08" => c08::run(&args),
+        #[cfg(feature = "net")]
         "c09" => c09::run(&args),
+        #[cfg(feature = "net")]
         "c10" => c10::run(&args),
         "c12" => c12::run(&args),
         "c14" => c14::run(&args),
+        #[cfg(feature = "net")]
         "c15" => c15::run(&args),
+        #[cfg(feature = "net")]
         "c16" => c16::run(&args),
+        #[cfg(feature = "net")]
         "c17" => c17::run(&args),
         "c18" => c18::run(&args),
+        #[cfg(feature = "net")]
         "c19" => c19::run(&args),
         "c11" => c11_13::run(&args, false),
         "c13" => c11_13::run(&args, true),
